@@ -33,6 +33,8 @@ THEOREMS = [
     "KrroodVerif.Rdr.C08_build_partial_authored",
     "KrroodVerif.Rdr.C08_full_partial_authored",
     "KrroodVerif.Rdr.C08_today_end_to_end_authored",
+    "KrroodVerif.Rdr.C08_two_variables_conservative",
+    "KrroodVerif.Rdr.C08_spec_conservative",
     "KrroodVerif.Rdr.C08_cex_third_alternative",
     "KrroodVerif.Rdr.C08_cex_nested_refinement",
     "KrroodVerif.Rdr.C08_cex_next_same_binding",
@@ -51,6 +53,16 @@ ASSUMPTIONS = [
     "abstraction: one enumerated variable x over a domain of pairwise distinct objects; each branch condition is a "
     "predicate on x (in_(x.a, [...])); each conclusion is Add(views, inference(K_c)(src=x)), one per block",
     "the query is evaluated once per freshly built rule program (re-evaluation is C03's subject)",
+    "two rule variables: a block's condition is on x (in_(x.a, [...])) or relates x and y (in_(x, y.r_k)); evaluating the "
+    "latter with y unbound enumerates y's domain; conclusions are built from x (K_c(src=x)) or from both "
+    "(KY_c(src=x, aux=y), classes >= 1000) and mention y only where y is bound. Not generated, because the code's "
+    "else-if is per result while its except-if is per rule and the property text does not say which reading applies: "
+    "an alternative written after a member of its chain that introduces y; more than one refinement of one rule "
+    "introducing y (only the first written may). Also not generated over two variables: an unlinked refinement "
+    "(F-C08-2) followed by an alternative/next_rule in the same block - the surgery then shares a condition leaf, whose "
+    "re-evaluation returns the caller's bindings dict (by then extended by the query descriptor): dict aliasing is not "
+    "modelled. Theorems cover the y-free fragment (conservative-extension "
+    "theorems); two-variable programs are covered by the correspondence only",
     "multi-step authoring is generated at the rule's own level only (several `with rule:` blocks, base Add anywhere "
     "between the branches); branch blocks are written once, conclusions first",
     "programs in which an alternative is written after a next_rule inside one chain are not generated: the property "
@@ -64,7 +76,8 @@ RULE = ("corpus; exhaustive: every unambiguous program skeleton with <=3 branche
         "block; random: programs with nesting <=3, <=4 siblings, <=9 branches, domains of 1-5 "
         "elements and random condition sets, half of them drawn from the class today's surgery builds correctly, "
         "two in five authored in several `with rule:` blocks on the same rule (1-3 re-entries at random points, "
-        "base conclusion at a random point); "
+        "base conclusion at a random point), one in three over two rule variables (1-3 values of y in either order, "
+        "random relations, conclusions over {x} or {x, y}); "
         "non-trivial = at least one branch and a specification result that is neither empty nor 'every class for "
         "every element'; distinct by case text")
 
@@ -88,6 +101,10 @@ class Block:
     # and `with rule:` is opened again) or "here" (the base rule's Add statements stand here; default: first);
     # a marker at position i stands before kid i (i == len(kids): after the last kid)
     marks: list = field(default_factory=list)
+    # two rule variables: `rel` = the (x, y) pairs for which the block's condition `in_(x, y.r)` holds (None: the
+    # condition is `holds`, on x alone); `domy` (root only) = the domain of y (None: the program never mentions y)
+    rel: list = None
+    domy: list = None
 
     def size(self) -> int:
         return 1 + sum(k.size() for k in self.kids)
@@ -96,7 +113,11 @@ class Block:
         return 1 + max((k.depth() for k in self.kids), default=0)
 
     def show(self) -> str:
-        s = f"({self.kind} (h" + "".join(f" {e}" for e in self.holds) + ") (c" + "".join(f" {c}" for c in self.concl) + ")"
+        if self.rel is None:
+            cnd = "(h" + "".join(f" {e}" for e in self.holds) + ")"
+        else:
+            cnd = "(r" + "".join(f" ({a} {b})" for a, b in self.rel) + ")"
+        s = f"({self.kind} {cnd} (c" + "".join(f" {c}" for c in self.concl) + ")"
         for tok in self.tokens():
             s += " " + (tok.show() if isinstance(tok, Block) else f"({tok})")
         return s + ")"
@@ -123,7 +144,8 @@ class Block:
         return out
 
     def copy(self) -> "Block":
-        return Block(self.kind, list(self.holds), list(self.concl), [k.copy() for k in self.kids], list(self.marks))
+        return Block(self.kind, list(self.holds), list(self.concl), [k.copy() for k in self.kids], list(self.marks),
+                     None if self.rel is None else list(self.rel), None if self.domy is None else list(self.domy))
 
     def drop_kid(self, j, replacement=()):
         """remove kid j (put `replacement` in its place), keeping the markers where they were written"""
@@ -138,7 +160,8 @@ class Block:
 
 
 def show_prog(dom, root: Block) -> str:
-    return "(prog (dom" + "".join(f" {d}" for d in dom) + ") " + root.show() + ")"
+    domy = "" if root.domy is None else "(domy" + "".join(f" {e}" for e in root.domy) + ") "
+    return "(prog (dom" + "".join(f" {d}" for d in dom) + ") " + domy + root.show() + ")"
 
 
 def _tokens(line: str):
@@ -162,8 +185,11 @@ def parse_prog(line: str):
     dom = [int(x) for x in s[1][1:]]
 
     def blk(b):
-        assert b[1][0] == "h" and b[2][0] == "c"
-        out = Block(b[0], [int(x) for x in b[1][1:]], [int(x) for x in b[2][1:]], [])
+        assert b[1][0] in ("h", "r") and b[2][0] == "c"
+        if b[1][0] == "h":
+            out = Block(b[0], [int(x) for x in b[1][1:]], [int(x) for x in b[2][1:]], [])
+        else:
+            out = Block(b[0], [], [int(x) for x in b[2][1:]], [], rel=[(int(u), int(v)) for u, v in b[1][1:]])
         for item in b[3:]:
             if item in (["reenter"], ["here"]):
                 assert b[0] == "root"
@@ -172,7 +198,79 @@ def parse_prog(line: str):
                 out.kids.append(blk(item))
         return out
 
+    if s[2][0] == "domy":
+        root = blk(s[3])
+        root.domy = [int(x) for x in s[2][1:]]
+        return dom, root
     return dom, blk(s[2])
+
+
+YCLASS = 1000  # classes numbered >= YCLASS are constructed from x and y (Rdr.classUsesY)
+
+
+def y_context(root: Block):
+    """per block (by id): is y bound in the bindings its condition is evaluated from? A refinement sees what its rule
+    binds; an alternative / next_rule is evaluated from the bindings its rule was evaluated from"""
+    ctx = {}
+
+    def go(b, c):
+        ctx[id(b)] = c
+        for k in b.kids:
+            go(k, (c or b.rel is not None) if k.kind == "ref" else c)
+
+    go(root, False)
+    return ctx
+
+
+def well_scoped(root: Block) -> bool:
+    """the two-variable programs that are generated: (a) a conclusion mentions y only where y is bound; (b) in one
+    chain no alternative is written after a member whose condition introduces y — the code's else-if is per result
+    (it would run for every y that fails), its except-if is per rule (any y that holds): the property text does not
+    say which reading an alternative after such a member has"""
+    ctx = y_context(root)
+    ok = [True]
+    for b in root.walk():
+        if any(c >= YCLASS for c in b.concl) and not (ctx[id(b)] or b.rel is not None):
+            ok[0] = False
+
+    def scope(n):
+        introduced = [n.rel is not None and not ctx[id(n)]]
+
+        def walk(b):
+            for k in b.kids:
+                if k.kind == "ref":
+                    scope(k)
+                else:
+                    if k.kind == "alt" and introduced[0]:
+                        ok[0] = False
+                    if k.kind == "alt" and k.rel is not None and not ctx[id(k)]:
+                        introduced[0] = True
+                    walk(k)
+
+        walk(n)
+
+    scope(root)
+    # (d) no orphaned refinement that a later alternative/next_rule of the same block re-attaches: today's surgery
+    # then shares the *condition leaf* between two parents; re-evaluated with its id already in the bindings it hands
+    # back the caller's dict object, which the query descriptor has meanwhile extended by `views` — with several
+    # results per x that aliasing changes the keys of concluded_before (not modelled)
+    if any(b.rel is not None for b in root.walk()):
+        for b in root.walk():
+            orphan = False
+            for i, k in enumerate(b.kids):
+                if k.kind == "ref":
+                    orphan = orphan or not (b is root and i == 0)
+                elif orphan:
+                    ok[0] = False
+    # (c) of several refinements of one rule only the first written may introduce y: the repaired surgery nests them
+    # (last written innermost, evaluated first), so a y bound by a later one would reach the earlier ones
+    for b in root.walk():
+        refs = [k for k in b.kids if k.kind == "ref"]
+        if not (ctx[id(b)] or b.rel is not None):
+            for k in refs[1:]:
+                if any(d.rel is not None for d in k.walk()):
+                    ok[0] = False
+    return ok[0]
 
 
 def unambiguous(root: Block) -> bool:
@@ -260,6 +358,31 @@ def _gen_block(rng, kind, depth, counter, dom, scope, p_hold, small):
     return b
 
 
+MAXCHAIN = 5  # alternative/next_rule branches per chain: today's surgery shares a node per extra branch written in
+# one block, and both the engine and the model then evaluate it twice per level (2^k; 8 next_rules: 100 s)
+
+
+def _longest_chain(root: Block) -> int:
+    best = [0]
+
+    def scope(n):
+        cnt = [0]
+
+        def walk(b):
+            for k in b.kids:
+                if k.kind == "ref":
+                    scope(k)
+                else:
+                    cnt[0] += 1
+                    walk(k)
+
+        walk(n)
+        best[0] = max(best[0], cnt[0])
+
+    scope(root)
+    return best[0]
+
+
 def _gen_clean_scope(rng, node: Block, depth, m0, counter, dom, p_hold):
     """branches of one chain scope, placed where one climb step of today's surgery suffices (not Prog.trigClimb):
     the first in the scope rule's block, the second there too (only when nothing is above the rule yet) or in the
@@ -312,7 +435,7 @@ def _gen_prog(rng, clean: bool):
         return dom, root
     while True:
         root = _gen_block(rng, "root", 0, [0], dom, [False], p_hold, False)
-        if root.size() <= MAXSIZE + 1:
+        if root.size() <= MAXSIZE + 1 and _longest_chain(root) <= MAXCHAIN:
             return dom, root
 
 
@@ -378,6 +501,61 @@ def _add_schedule(rng, root: Block):
     root.marks = sorted(marks, key=lambda pm: pm[0])  # stable: the shuffled order decides ties
 
 
+def _add_second_variable(rng, dom, root: Block):
+    """turn some conditions into relations between x and y and some conclusions into classes built from both
+    (a few attempts: the draw may leave every condition on x alone — then the program simply stays one-variable)"""
+    for _ in range(8):
+        r = root.copy()
+        _draw_second_variable(rng, dom, r)
+        if any(b.rel is not None for b in r.walk()) and well_scoped(r):
+            return r
+    return root
+
+
+def _draw_second_variable(rng, dom, root: Block):
+    ny = rng.choice([1, 2, 2, 3, 3])
+    domy = list(range(ny))
+    if rng.random() < 0.5:
+        domy.reverse()
+    root.domy = domy
+    p_hold = rng.choice([0.3, 0.5, 0.7])
+    ctx = {}
+
+    def mk_rel(b):
+        b.rel = [(x, y) for x in dom for y in domy if rng.random() < p_hold]
+        b.holds = []
+
+    def scope(n, c):
+        # members of the chain scope in the order written; only the last chain member (the scope's rule or an
+        # alternative with no alternative after it) and next_rules may introduce y
+        members = []
+
+        def collect(b):
+            for k in b.kids:
+                if k.kind != "ref":
+                    members.append(k)
+                    collect(k)
+
+        collect(n)
+        last_alt = max((i for i, m in enumerate(members) if m.kind == "alt"), default=-1)
+        may = {id(n): last_alt == -1}
+        for i, m in enumerate(members):
+            may[id(m)] = m.kind == "next" or i == last_alt
+        for b in [n] + members:
+            ctx[id(b)] = c
+            if rng.random() < (0.45 if (c or may[id(b)]) else 0.0):
+                mk_rel(b)
+        for b in [n] + members:
+            for k in b.kids:
+                if k.kind == "ref":
+                    scope(k, c or b.rel is not None)
+
+    scope(root, False)
+    for b in root.walk():
+        if b.concl and (ctx[id(b)] or b.rel is not None) and rng.random() < 0.6:
+            b.concl = [c + YCLASS for c in b.concl]
+
+
 def generate(rng, tier, n):
     cases = list(_exhaustive(tier))
     for i in range(n):
@@ -387,11 +565,20 @@ def generate(rng, tier, n):
         multi = i % 5 < 2
         if multi:
             _add_schedule(rng, root)
+        twovar = i % 3 == 1
+        if twovar:
+            root = _add_second_variable(rng, dom, root)
+            twovar = root.domy is not None
+            assert well_scoped(root), show_prog(dom, root)
         kinds = sorted({b.kind for b in root.walk()} - {"root"})
         tags = ("random", "clean-class" if clean else "general", f"size{min(root.size() - 1, 9)}",
                 f"depth{root.depth() - 1}", "kinds:" + "+".join(kinds), f"dom{len(dom)}")
         if multi:
             tags += ("multi-block", f"blocks{len(root.sessions())}")
+        if twovar:
+            nrel = sum(b.rel is not None for b in root.walk())
+            ny = sum(any(c >= YCLASS for c in b.concl) for b in root.walk())
+            tags += ("two-variables", f"relations{min(nrel, 4)}", f"xy-conclusions{min(ny, 4)}", f"domy{len(root.domy)}")
         cases.append(Case(show_prog(dom, root), tags, "random"))
     return cases
 
@@ -419,7 +606,9 @@ def shrink(case: Case):
         return b
 
     def emit(d, r):
-        if unambiguous(r):
+        if r.domy is not None and all(b.rel is None and all(c < YCLASS for c in b.concl) for b in r.walk()):
+            r.domy = None
+        if unambiguous(r) and well_scoped(r):
             yield Case(show_prog(d, r), ("shrink",), "shrink")
 
     for path in list(paths(root)):
@@ -440,7 +629,32 @@ def shrink(case: Case):
             r = root.copy()
             for b in r.walk():
                 b.holds = [e for e in b.holds if e != d]
+                if b.rel is not None:
+                    b.rel = [(u, v) for u, v in b.rel if u != d]
             yield from emit([e for e in dom if e != d], r)
+    if root.domy is not None and len(root.domy) > 1:
+        for d in root.domy:
+            r = root.copy()
+            r.domy = [e for e in r.domy if e != d]
+            for b in r.walk():
+                if b.rel is not None:
+                    b.rel = [(u, v) for u, v in b.rel if v != d]
+            yield from emit(dom, r)
+    for path in list(paths(root)):
+        b = get(root, path)
+        if b.rel is not None:
+            for pr in b.rel:
+                r = root.copy()
+                get(r, path).rel.remove(pr)
+                yield from emit(dom, r)
+            r = root.copy()  # a relation becomes a condition on x
+            bb = get(r, path)
+            bb.holds, bb.rel = sorted({u for u, _ in b.rel}), None
+            yield from emit(dom, r)
+        if any(c >= YCLASS for c in b.concl):
+            r = root.copy()
+            get(r, path).concl = [c % YCLASS for c in b.concl]
+            yield from emit(dom, r)
     for path in list(paths(root)):
         b = get(root, path)
         for e in b.holds:
@@ -454,7 +668,7 @@ def shrink(case: Case):
 
 
 def compare(impl: str, other: str) -> bool:
-    """string equality, except that a model row `a|b:x` stands for exactly one of `a:x`, `b:x`"""
+    """string equality, except that a model row `a|b:x` (or `a:x|b:x.y`) stands for exactly one of its candidates"""
     if "|" not in other:
         return impl == other
     if not (impl.startswith("[") and other.startswith("[")):
@@ -465,8 +679,12 @@ def compare(impl: str, other: str) -> bool:
         if not r:
             continue
         if "|" in r:
-            cs, x = r.split(":")
-            alts.append({f"{c}:{x}" for c in cs.split("|")})
+            parts = r.split("|")
+            if all(":" in q for q in parts):  # two-variable rows: every candidate carries its own arguments
+                alts.append(set(parts))
+            else:
+                cs, x = r.split(":")
+                alts.append({f"{c}:{x}" for c in cs.split("|")})
         else:
             base.add(r)
     if not base <= got:
@@ -483,20 +701,31 @@ _CLASSES = None
 _STATS = {"exceptions": {}, "evaluated": 0, "instances": 0}
 
 
+NREL = 16  # relation attributes r0..r15 of the second variable's class (one per block whose condition relates x and y)
+
+
 def _classes():
-    """harness-owned classes: the domain elements, the inferred view base class and one subclass per branch"""
+    """harness-owned classes: the elements of x (P) and of y (Q), the inferred view base class and, per branch, one
+    subclass built from x (K_i) and one built from x and y (KY_i)"""
     global _CLASSES
     if _CLASSES is None:
         @dataclass(eq=False)
         class P:
             a: int
 
+        qfields = {"__annotations__": {"b": int, **{f"r{i}": list for i in range(NREL)}}}
+        for i in range(NREL):
+            qfields[f"r{i}"] = field(default_factory=list)
+        Q = dataclass(eq=False)(type("Q", (), qfields))
+
         @dataclass
         class View:
             src: P
 
         kls = [dataclass(type(f"K{i}", (View,), {"__annotations__": {}, "_k": i})) for i in range(NCLASSES)]
-        _CLASSES = (P, View, kls)
+        kys = [dataclass(type(f"KY{i}", (View,), {"__annotations__": {"aux": Q}, "_k": YCLASS + i}))
+               for i in range(NCLASSES)]
+        _CLASSES = (P, Q, View, kls, kys)
     return _CLASSES
 
 
@@ -507,24 +736,47 @@ def _one(case: Case) -> str:
     from krrood.entity_query_language.rule import refinement, alternative, next_rule
     from krrood.entity_query_language.symbolic import SymbolicExpression
 
-    P, View, kls = _classes()
+    P, Q, View, kls, kys = _classes()
     try:
         dom, root = parse_prog(case.line)
         objs = {d: P(100 + d) for d in dom}
         back = {id(o): d for d, o in objs.items()}
         x = let(P, [objs[d] for d in dom], name="x")
         views = inference(View)()
+        y, backy = None, {}
+        relattr = {}
+        if root.domy is not None:
+            qobjs = {e: Q(200 + e) for e in root.domy}
+            backy = {id(o): e for e, o in qobjs.items()}
+            for b in root.walk():
+                if b.rel is not None:
+                    if len(relattr) >= NREL:
+                        return "bad-case"
+                    name = relattr[id(b)] = f"r{len(relattr)}"
+                    for e, o in qobjs.items():
+                        setattr(o, name, [objs[u] for u, v in b.rel if v == e and u in objs])
+            if root.domy:
+                y = let(Q, [qobjs[e] for e in root.domy], name="y")
 
         def cond(b: Block):
+            if b.rel is not None:
+                # `x in y.r`: holds for the pairs of b.rel; with y unbound the engine enumerates y's domain
+                return in_(x, getattr(y, relattr[id(b)]))
             # -1 keeps the container non-empty; attribute values are >= 100 (never falsy: F-C01-3 is not C08's subject)
             return in_(x.a, [-1] + [100 + e for e in b.holds])
+
+        def add(c):
+            if c >= YCLASS:
+                Add(views, inference(kys[c - YCLASS])(src=x, aux=y))
+            else:
+                Add(views, inference(kls[c])(src=x))
 
         query = an(entity(views, cond(root)))
         fn = {"ref": refinement, "alt": alternative, "next": next_rule}
 
         def body(b: Block):
             for c in b.concl:
-                Add(views, inference(kls[c])(src=x))
+                add(c)
             for k in b.kids:
                 with fn[k.kind](cond(k)):
                     body(k)
@@ -534,7 +786,7 @@ def _one(case: Case) -> str:
                 for tok in session:
                     if tok == "here":
                         for c in root.concl:
-                            Add(views, inference(kls[c])(src=x))
+                            add(c)
                     else:
                         with fn[tok.kind](cond(tok)):
                             body(tok)
@@ -542,9 +794,15 @@ def _one(case: Case) -> str:
         for r in query.evaluate():
             _STATS["instances"] += 1
             src = back.get(id(r.src))
-            if src is None or type(r) not in kls:
+            if src is None or (type(r) not in kls and type(r) not in kys):
                 return "bad-instance"
-            rows.add(f"{type(r)._k:04d}:{src}")
+            if type(r) in kys:
+                aux = backy.get(id(r.aux))
+                if aux is None:
+                    return "bad-instance"
+                rows.add(f"{type(r)._k:04d}:{src}.{aux}")
+            else:
+                rows.add(f"{type(r)._k:04d}:{src}")
         _STATS["evaluated"] += 1
         return "[" + ",".join(sorted(rows)) + "]"
     except Exception as e:  # noqa: BLE001
